@@ -6,7 +6,9 @@
     block:K    hold answers, write them out in blocks of K lines (and at end of input)
     readall    read all of stdin first, then answer everything
     echo       copy bytes as they arrive (like cat): partial lines are echoed
+    early      answer "<early>" to every line as soon as its first byte arrives
     stdio      default stdio buffering of a pipe (like `tr`/`sed` without -u)
+  MODE+num makes the child stateful: the answer to its n-th line (from 0) is "n:<" + L.upper() + ">".
   The answer to line L is "<" + L.upper() + ">" for eager/block/readall/stdio and L itself for echo.
   --log FILE   append every line received on stdin to FILE (what the child was given)
   --exit N     exit status after end of input
@@ -21,7 +23,14 @@ CR_TAIL = False
 FIELD3 = False
 
 
+NUMBER = None     # "+num": a STATEFUL child; the answer to its n-th line (from 0) starts with "n:"
+
+
 def answer(line):
+    global NUMBER
+    if NUMBER is not None:
+        NUMBER += 1
+        return b"%d:<" % (NUMBER - 1) + line.upper() + b">"
     if FIELD3:   # print the third tab-separated field (empty if absent or empty)
         f = line.split(b"\t")
         return f[2] if len(f) > 2 else b""
@@ -31,7 +40,10 @@ def answer(line):
 def main():
     args = sys.argv[1:]
     mode = args[0] if args else "eager"
-    global CR_TAIL, FIELD3
+    global CR_TAIL, FIELD3, NUMBER
+    if mode.endswith("+num"):     # answers are numbered: depends on how many lines the child has seen
+        NUMBER = 0
+        mode = mode[:-4]
     if mode.endswith("+f3"):      # answers = third tab-separated field of the line
         FIELD3 = True
         mode = mode[:-3]
@@ -52,6 +64,24 @@ def main():
             i += 1
     fin = 0
     fout = 1
+    if mode == "early":
+        # exactly one answer line per input line, written as soon as the FIRST byte of the line arrives
+        at_start = True
+        while True:
+            data = os.read(fin, 65536)
+            if not data:
+                break
+            if log:
+                log.write(data)
+            out = b""
+            for i in range(len(data)):
+                if at_start:
+                    out += b"<early>\n"
+                at_start = data[i:i + 1] == b"\n"
+            off = 0
+            while off < len(out):
+                off += os.write(fout, out[off:])
+        sys.exit(code)
     if mode == "echo":
         while True:
             data = os.read(fin, 65536)
